@@ -33,9 +33,9 @@ type model struct {
 }
 
 type expect struct {
-	Host, Proto, Bind                                                  string
+	Host, Proto, Bind                                             string
 	Port, Timeout, Istcp, Grid, Qos, Weight, WeightType, AuthType int32
-	Key                                                                string
+	Key                                                           string
 }
 
 func expected(m model) expect {
